@@ -59,6 +59,7 @@ type replayFile struct {
 	Tape     []uint32 `json:"tape"`
 	Cold     bool     `json:"cold_start,omitempty"` // replay in a process that parsed nothing before (worker flag -cold)
 	GMP      string   `json:"gomaxprocs,omitempty"` // GOMAXPROCS of the worker process that found it
+	AscFrom  *int     `json:"asc_from,omitempty"`   // R-order: where the ascending execution begins (the batch's worker process began there)
 	Window   []int    `json:"window,omitempty"`     // [from,to]: run indices to execute in one process when no single tape reproduces
 	TapeLen0 int      `json:"tape_len_before_shrinking"`
 	Trace    []string `json:"trace"`
@@ -395,7 +396,11 @@ func cmdReplay(c *checkCtx, path string) int {
 		fmt.Printf("replay of %s: no violation on this tree\n", path)
 		return 0
 	} else if len(rf.Window) == 2 && strings.HasSuffix(rf.Class, rOrderSuffix) {
-		if rOrderDiffers(c, rf.Window[0], rf.Window[1]+1, rf.RunIndex) {
+		ascFrom := rf.Window[0]
+		if rf.AscFrom != nil {
+			ascFrom = *rf.AscFrom
+		}
+		if rOrderDiffers(c, ascFrom, rf.Window[0], rf.Window[1]+1, rf.RunIndex) {
 			fmt.Printf("replay of %s: class=%s: run %d still depends on what the process executed before\n", path, rf.Class, rf.RunIndex)
 			fmt.Printf("VIOLATION property=%s replay=%s\n", p.id, path)
 			return 1
@@ -554,7 +559,7 @@ func rOrder(c *checkCtx) *found {
 					i, _ := strconv.Atoi(k)
 					compared++
 					if want, ok := b.digests[i]; ok && want != v && first == nil {
-						first = &found{From: j.from, I: i, Viol: Violation{Class: c.p.id + rOrderSuffix, Key: fmt.Sprintf("run %d", i),
+						first = &found{From: j.from, AscFrom: b.spanStart(i), I: i, Viol: Violation{Class: c.p.id + rOrderSuffix, Key: fmt.Sprintf("run %d", i),
 							Detail: fmt.Sprintf("run %d of seed %d gives outcome digest %x when the process executes runs %d..%d in ascending order and %x %s: state leaked from one run into another", i, c.seed, want, j.from, j.to-1, v, how)}}
 					}
 				}
@@ -578,7 +583,7 @@ const rOrderSuffix = ":run-depends-on-what-the-process-executed-before"
 
 // rOrderDiffers re-executes runs [from,to) in ascending and descending order and alone, and
 // reports whether run i's digest differs between any two of them.
-func rOrderDiffers(c *checkCtx, from, to, i int) bool {
+func rOrderDiffers(c *checkCtx, ascFrom, from, to, i int) bool {
 	get := func(cr chunkResult) (uint64, bool) {
 		if cr.err != nil || cr.sum == nil {
 			return 0, false
@@ -586,7 +591,9 @@ func rOrderDiffers(c *checkCtx, from, to, i int) bool {
 		v, ok := cr.sum.ODigests[strconv.Itoa(i)]
 		return v, ok
 	}
-	a, ok1 := get(runChunk(c.bin, c.p.id, c.seed, from, to, "asc", "-digests"))
+	// ascending from where the batch's worker process began (a long-lived process has a
+	// longer history than the window that is re-executed in descending order)
+	a, ok1 := get(runChunk(c.bin, c.p.id, c.seed, ascFrom, to, "asc", "-digests"))
 	d, ok2 := get(runChunk(c.bin, c.p.id, c.seed, from, to, "desc", "-digests"))
 	o, ok3 := get(runChunk(c.bin, c.p.id, c.seed, i, i+1, "asc", "-digests"))
 	return ok1 && ok2 && ok3 && (a != d || a != o)
@@ -595,13 +602,13 @@ func rOrderDiffers(c *checkCtx, from, to, i int) bool {
 func reportROrder(c *checkCtx, v *found) int {
 	to := v.From + c.p.chunk
 	rf := replayFile{Property: c.p.id, Seed: c.seed, RunIndex: v.I, Tier: c.tier, Class: v.Viol.Class, Key: v.Viol.Key, Detail: v.Viol.Detail,
-		Window: []int{v.From, to - 1}, Note: "R-order: replay executes runs window[0]..window[1] of seed in ascending order, in descending order, and run_index alone, and compares run_index's event digest"}
+		AscFrom: &v.AscFrom, Window: []int{v.From, to - 1}, Note: "R-order: replay executes runs window[0]..window[1] of seed in ascending order, in descending order, and run_index alone, and compares run_index's event digest"}
 	os.MkdirAll(filepath.Join(verifDir, "replays"), 0o755)
 	path := filepath.Join(verifDir, "replays", fmt.Sprintf("%s-%d-%d.json", c.p.id, c.seed, v.I))
 	jb, _ := json.MarshalIndent(rf, "", " ")
 	os.WriteFile(path, jb, 0o644)
 	fmt.Printf("violation class=%s key=%q\n%s\n", v.Viol.Class, v.Viol.Key, v.Viol.Detail)
-	if !rOrderDiffers(c, v.From, to, v.I) {
+	if !rOrderDiffers(c, v.AscFrom, v.From, to, v.I) {
 		c.env.cleanup()
 		exit2("R-order difference of %s did not reproduce from %s: not reported as a verdict", c.p.id, path)
 	}
